@@ -309,7 +309,7 @@ theorem handle_wired (s s' : Sys) (m : Msg) (ms : List Msg) (w : Wired s) (hwf :
         by rw [r]; exact w.rwOwner, by rw [r]; exact w.rwNominee⟩
     · exact absurd c hs.2.2.1
     · exact absurd c hs.2.2.2.1
-  | reg s1 sender funds rm heq h1 hx' h b t r d =>
+  | reg s1 sender funds rm heq h1 _ _ hx' h b t r d =>
     exact ⟨by rw [b]; exact w.tokHub, by rw [h]; exact w.hubDisp, by rw [d]; exact w.dispRw,
       by rw [r]; exact w.rwHub, by rw [h]; exact w.hubTok, by rw [h]; exact w.hubOwner,
       by rw [h]; exact w.hubNominee, by rw [d]; exact w.dispOwner, by rw [d]; exact w.dispNominee,
